@@ -52,18 +52,6 @@ def W(*words):
     return [[w] for w in words]
 
 
-def split_atoms(atoms, sep="/"):
-    out, cur = [], []
-    for a in atoms:
-        if a == sep:
-            out.append(cur)
-            cur = []
-        else:
-            cur.append(a)
-    out.append(cur)
-    return out
-
-
 BSX = [".", ".", "\\", "x"]          # a file literally named  ..\x
 ABK = ["a", "\\", ".", "."]          # a file literally named  a\..
 CCOL = ["C", ":"]                    # a file literally named  C:
@@ -797,8 +785,8 @@ def _replay(ck, rec):
     if c["kind"] == "zip":
         from jinja2 import PackageLoader
         z, base, files, data, loaders, frags = zip_setup()
-        pieces = split_atoms(c["atoms"])
-        r = run_loaders_tlc("replay", files, loaders, pieces, len(pieces), workers=2)
+        # the whole name as one fragment (fragments may contain "/")
+        r = run_loaders_tlc("replay", files, loaders, [c["atoms"]], 1, workers=2)
         lines = {k: b for k, b in behaviours(r).items() if list(k[3]) == c["atoms"]}
         sys.path.insert(0, z)
         try:
@@ -818,9 +806,7 @@ def _replay(ck, rec):
             raise core.MachineryError("scratch base has a different depth than in the recorded case")
         ren = dict(zip(old, new))
         atoms = [ren.get(a, a) for a in c["atoms"]]
-        pieces = split_atoms(atoms)
-        r = run_loaders_tlc("replay", tree.files, {c["loader"]: tree.loaders[c["loader"]]}, pieces, len(pieces),
-                            workers=2)
+        r = run_loaders_tlc("replay", tree.files, {c["loader"]: tree.loaders[c["loader"]]}, [atoms], 1, workers=2)
         lines = {k: b for k, b in behaviours(r).items() if list(k[3]) == atoms}
         if not lines:
             raise core.MachineryError("replay: TLC did not produce the recorded name")
